@@ -12,7 +12,7 @@ EXPLANATION = ("Decided from MIR: (R1) Container::_get_pack returns Ok(None) whe
                "of a lookup keyed by the expected uuid inside the opened file (a different valid pack at the recorded location yields "
                "None = missing); (R4) in Container::check the None arm of locate goes to the next pack without failing. Which contents remain "
                "readable is not decided."
-               ' Added later: (R5) only the directory pack is located at open time; (R6) the only interior-mutable state of Container is the table of found packs; (R7) MayMissPack conversions keep MISSING.')
+               ' Added later: (R5) only the directory pack is located at open time; (R6) the only interior-mutable state of Container is the table of found packs; (R7) MayMissPack conversions keep MISSING. (R8) no binary search over the manifest\'s pack table.')
 ASSUMPTIONS = ["Path::is_file semantics", "rustc MIR construction and trait resolution"]
 
 
